@@ -33,15 +33,23 @@ type c07Cfg struct {
 }
 
 var c07Faults = []string{"none", "status-reject", "status-conflict", "status-lost", "crash-between", "spec-reject", "spec-conflict", "spec-lost", "crash-before-status"}
-var c07Routes = []string{"command", "restarts", "timeout", "command-mid-sync"}
+var c07Routes = []string{"command", "restarts", "timeout", "command-mid-sync", "command-early"}
 
 func (c c07Cfg) String() string {
 	return fmt.Sprintf("nodes=%d replicas=%s affinity=%v failBy=%s paused=%v afterDuration=%v fault=%s rsFirst=%v hold=%q unready=%v", c.Nodes, c.Replicas, c.Affinity, c.FailBy, c.Paused, c.AfterDur, c.Fault, c.ExtraEdits, c.Hold, c.Unready)
 }
 
-func c07Run(rec *evid.Rec, f fataler, cfg c07Cfg) {
+func c07Run(rec *evid.Rec, f fataler, cfg c07Cfg) { c07RunFor(rec, f, cfg, "C07") }
+
+// c07RunFor plays the failed-canary history for property prop: C07 judges the whole rollback, C05 only whether the
+// failed replica set is ever promoted (promotion-rule and canary-latch monitors, and a rollback undone later).
+func c07RunFor(rec *evid.Rec, f fataler, cfg c07Cfg, prop string) {
 	var viol []mon.V
-	w := &World{rec: rec, cfg: WorldCfg{Monitors: mon.Of("rs-gc", "promotion-rule", "canary-confinement", "create-eligible", "no-panic", "status-function", "canary-latch"), Property: "C07"}, H: mon.NewHistory(), RSSeen: map[string]bool{}, RolesSynced: map[string]bool{}, Facts: map[string]int{}, lastSyncAt: map[string]time.Time{}, Det: true}
+	monitors := mon.Of("rs-gc", "promotion-rule", "canary-confinement", "create-eligible", "no-panic", "status-function", "canary-latch")
+	if prop == "C05" {
+		monitors = mon.Of("promotion-rule", "canary-latch", "no-panic")
+	}
+	w := &World{rec: rec, cfg: WorldCfg{Monitors: monitors, Property: prop}, H: mon.NewHistory(), RSSeen: map[string]bool{}, RolesSynced: map[string]bool{}, Facts: map[string]int{}, lastSyncAt: map[string]time.Time{}, Det: true}
 	w.OnViolation = func(vs []mon.V) { viol = append(viol, vs...) }
 	w.C = sim.New(sim.Options{AffinityMode: cfg.Affinity})
 	for i := 0; i < cfg.Nodes; i++ {
@@ -93,7 +101,21 @@ func c07Run(rec *evid.Rec, f fataler, cfg c07Cfg) {
 	activeBefore := w.C.EDS(k.Namespace, k.Name).Status.ActiveReplicaSet
 	activeTpl := w.C.ERS(k.Namespace, activeBefore).Spec.Template
 	w.editTemplate(k, 'B')
-	if !waitFor(func() bool {
+	early := cfg.FailBy == "command-early"
+	if early {
+		// route command-early: the user fails the canary as soon as the EDS controller has recorded it, before the
+		// replica-set controller has synced the new set even once (its status carries no condition yet)
+		for i := 0; i < 4 && !stop(); i++ {
+			if e := w.C.EDS(k.Namespace, k.Name); e.Status.Canary != nil && len(e.Status.Canary.Nodes) > 0 && w.C.ERS(k.Namespace, e.Status.Canary.ReplicaSet) != nil {
+				break
+			}
+			w.C.Advance(time.Second)
+			w.reconcile(sim.ActorEDS, k.Namespace, k.Name)
+		}
+	}
+	if e := w.C.EDS(k.Namespace, k.Name); early && e.Status.Canary != nil && len(e.Status.Canary.Nodes) > 0 && w.C.ERS(k.Namespace, e.Status.Canary.ReplicaSet) != nil {
+		// recorded and not yet synced
+	} else if !waitFor(func() bool {
 		e := w.C.EDS(k.Namespace, k.Name)
 		return e.Status.Canary != nil && len(e.Status.Canary.Nodes) > 0 && readyOf(e.Status.Canary.ReplicaSet) == len(e.Status.Canary.Nodes)
 	}, 15) {
@@ -111,13 +133,17 @@ func c07Run(rec *evid.Rec, f fataler, cfg c07Cfg) {
 	}
 	if cfg.Paused {
 		_ = w.C.SetEDSAnnotation(k.Namespace, k.Name, oracle.AnnCanaryPaused, "true")
-		w.fairRound("c07 paused")
+		if !early {
+			w.fairRound("c07 paused")
+		}
 	}
 	if cfg.AfterDur && cfg.FailBy != "timeout" {
 		// the duration elapses while the canary is paused (otherwise it would simply be promoted)
 		if !cfg.Paused {
 			_ = w.C.SetEDSAnnotation(k.Namespace, k.Name, oracle.AnnCanaryPaused, "true")
-			w.fairRound("c07 paused")
+			if !early {
+				w.fairRound("c07 paused")
+			}
 		}
 		w.C.Advance(6 * time.Minute)
 	}
@@ -178,7 +204,7 @@ func c07Run(rec *evid.Rec, f fataler, cfg c07Cfg) {
 	}
 	failedAt := w.C.Now()
 	switch cfg.FailBy {
-	case "command":
+	case "command", "command-early":
 		failByUser()
 	case "command-mid-sync":
 		midSync = true
@@ -299,6 +325,9 @@ func c07Run(rec *evid.Rec, f fataler, cfg c07Cfg) {
 			viol = append(viol, mon.V{Property: "C07", Monitor: "rollback", Sig: "C07/rollback/undone-later", Detail: "the rollback was complete and later: " + msg})
 		}
 	}
+	if e := w.C.EDS(k.Namespace, k.Name); e != nil && crs != "" && e.Status.ActiveReplicaSet == crs && !stop() {
+		viol = append(viol, mon.V{Property: "C05", Monitor: "failed-stays", Sig: "C05/failed-stays/failed-canary-became-active", Detail: fmt.Sprintf("replica set %s was marked failed (%s) and never validated, yet it is the active replica set at the end of the history", crs, cfg.FailBy)})
+	}
 	window := cfg.Fault != "none" && fired != ""
 	var classes []string
 	classes = append(classes, "route-"+cfg.FailBy, "fault-"+cfg.Fault)
@@ -317,11 +346,50 @@ func c07Run(rec *evid.Rec, f fataler, cfg c07Cfg) {
 	if nt && rec.WantSample() {
 		rec.Sample(map[string]interface{}{"config": cfg, "fault_hit": fired, "canary_nodes": canaryNodes})
 	}
+	if prop == "C05" {
+		var keep []mon.V
+		for _, v := range viol {
+			if v.Monitor != "rollback" || v.Sig == "C07/rollback/undone-later" {
+				keep = append(keep, v)
+			}
+		}
+		viol = keep
+	}
 	settle(f, rec, viol, map[string]interface{}{"config": cfg, "trace": w.C.Trace}, len(w.C.Trace), "config: "+cfg.String()+"\n--- trace ---\n"+strings.Join(w.C.Trace, "\n"))
 }
 
+// TestC05FailedStays: C05 over histories. A canary that was marked failed is never made active afterwards, whatever
+// happens to the rollback's two writes and whichever controller runs first: complete product of failure route x
+// fault position x paused x duration elapsed x reconcile order on a 3-node cluster.
+func TestC05FailedStays(t *testing.T) {
+	rec := evid.New("TestC05FailedStays", "C05", "complete product {5 failure routes: kubectl-eds canary fail, restart storm, canaryTimeout, canary fail landing inside the canary replica set's own sync, canary fail before the new set was ever synced} x {9 fault positions/kinds of the rollback's two-write window} x {paused or not} x {canary duration elapsed or not} x {replica sets or EDS reconciled first} on a 3-node cluster with one canary node, then 25 fair rounds with advancing time; oracle after every reconcile: promotion-rule (the active replica set changes only as the statement allows, judged on the state read), canary-latch (a sync of a replica set that is neither active nor canary leaves Canary-Failed / Canary-Paused as they were: they are what keeps a failed canary from being promoted by elapsed time) and, at the end, the failed replica set never became active; non-trivial = a canary pod existed at failure time and (no fault requested or the fault hit the window); distinct by configuration")
+	failed := false
+	ff := &firstFail{t: t, failed: &failed}
+	shard, shards := envInt("VERIF_SHARD", 0), envInt("VERIF_SHARDS", 1)
+	i := 0
+	for _, route := range c07Routes {
+		for _, fault := range c07Faults {
+			for _, paused := range []bool{false, true} {
+				for _, after := range []bool{false, true} {
+					for _, rsFirst := range []bool{false, true} {
+						i++
+						if i%shards != shard {
+							continue
+						}
+						c07RunFor(rec, ff, c07Cfg{Nodes: 3, Replicas: "1", FailBy: route, Paused: paused, AfterDur: after, Fault: fault, ExtraEdits: rsFirst}, "C05")
+					}
+				}
+			}
+		}
+	}
+	rec.Exhaustive(true)
+	if !failed {
+		rec.Done()
+	}
+}
+
 func TestC07Rollback(t *testing.T) {
-	rec := evid.New("TestC07Rollback", "C07", "history: first deployment, template change, canary up on its nodes, optional pause, optional elapsed duration, optionally rollout-frozen / rolling-update-paused for three minutes from the failure on (canary pods optionally not Ready meanwhile), then the canary fails by {kubectl-eds canary fail, restart storm -> auto-fail, canaryTimeout, canary fail landing between the read and the status write of the canary replica set's own sync}; the rollback reconcile meets a fault of the two-write window {none, status write rejected (generic error or Conflict), status applied/answer lost, stop between the writes, spec write rejected (generic error or Conflict), spec applied/answer lost, stop before the status write}; then fair rounds with advancing time; oracle: within 25 rounds spec.template = active template, status.canary nil, status.activeReplicaSet unchanged, every former canary node runs one Ready pod of the active template; the failed set exists for >= 2 minutes and is deleted only with an all-zero status (rs-gc monitor); non-trivial = a canary pod existed at failure time and (no fault requested or the fault hit the window); distinct by configuration")
+	rec := evid.New("TestC07Rollback", "C07", "history: first deployment, template change, canary up on its nodes, optional pause, optional elapsed duration, optionally rollout-frozen / rolling-update-paused for three minutes from the failure on (canary pods optionally not Ready meanwhile), then the canary fails by {kubectl-eds canary fail, restart storm -> auto-fail, canaryTimeout, canary fail landing between the read and the status write of the canary replica set's own sync, canary fail before the replica-set controller has synced the new set at all}; the rollback reconcile meets a fault of the two-write window {none, status write rejected (generic error or Conflict), status applied/answer lost, stop between the writes, spec write rejected (generic error or Conflict), spec applied/answer lost, stop before the status write}; then fair rounds with advancing time; oracle: within 25 rounds spec.template = active template, status.canary nil, status.activeReplicaSet unchanged, every former canary node runs one Ready pod of the active template; the failed set exists for >= 2 minutes and is deleted only with an all-zero status (rs-gc monitor); non-trivial = a canary pod existed at failure time and (no fault requested or the fault hit the window); distinct by configuration")
 	t.Cleanup(func() {
 		if !t.Failed() {
 			rec.Done()
@@ -338,7 +406,7 @@ func TestC07Rollback(t *testing.T) {
 
 // TestC07Window enumerates failure route x fault position x paused x after-duration completely (fixed size).
 func TestC07Window(t *testing.T) {
-	rec := evid.New("TestC07Window", "C07", "complete product {4 failure routes} x {9 fault positions/kinds of the rollback's two-write window} x {paused or not} x {duration elapsed or not} x {replica sets or EDS reconciled first} x {no hold, rollout frozen, rolling update paused for three minutes with the canary pods not Ready} on a 3-node cluster with one canary node; oracle and non-triviality as TestC07Rollback")
+	rec := evid.New("TestC07Window", "C07", "complete product {5 failure routes} x {9 fault positions/kinds of the rollback's two-write window} x {paused or not} x {duration elapsed or not} x {replica sets or EDS reconciled first} x {no hold, rollout frozen, rolling update paused for three minutes with the canary pods not Ready} on a 3-node cluster with one canary node; oracle and non-triviality as TestC07Rollback")
 	failed := false
 	ff := &firstFail{t: t, failed: &failed}
 	shard, shards := envInt("VERIF_SHARD", 0), envInt("VERIF_SHARDS", 1)
